@@ -110,6 +110,8 @@ impl ShutdownHandle {
     /// Request the daemon to shut down.
     pub fn shutdown(&self) {
         self.state.shutdown_requested.store(true, Ordering::Release);
+        #[cfg(feature = "verif-hooks")]
+        vhost::vhost_user::verif::hold("shutdown.between");
         let _ = self.state.conn.shutdown(Shutdown::Both);
     }
 }
@@ -178,10 +180,16 @@ where
             .name(self.name.clone())
             .spawn(move || {
                 let result = loop {
+                    #[cfg(feature = "verif-hooks")]
+                    vhost::vhost_user::verif::hold("daemon.before_read");
                     if let Err(e) = handler.handle_request().map_err(Error::HandleRequest) {
                         break Err(e);
                     }
+                    #[cfg(feature = "verif-hooks")]
+                    vhost::vhost_user::verif::hold("daemon.after_request");
                 };
+                #[cfg(feature = "verif-hooks")]
+                vhost::vhost_user::verif::hold("daemon.before_final_shutdown");
                 let _ = thread_state.conn.shutdown(Shutdown::Both);
                 result
             })
